@@ -292,6 +292,9 @@ func hasContinue(n ast.Node) bool {
 
 func hasJump(n ast.Node) bool { return hasReturn(n) || hasContinue(n) || hasWhile(n) }
 
+// in the checked variant a requirement may cut the computation anywhere: every branch is a continuation
+func (t *tr) jump(n ast.Node) bool { return t.chk || hasJump(n) }
+
 // ---------------------------------------------------------------------------------------------------------
 
 func (t *tr) stmts(list []ast.Stmt, k cont) string {
@@ -409,6 +412,9 @@ func (t *tr) stmts(list []ast.Stmt, k cont) string {
 				if k.retTerm == nil {
 					t.fail(x, "panic in a position from which the function cannot return")
 				}
+				if t.chk {
+					return t.flush() + k.retTerm("false")
+				}
 				return t.flush() + k.retTerm("(I3.Go.panic : "+t.retTy+")")
 			}
 		}
@@ -444,6 +450,7 @@ func (t *tr) copyStmt(c *ast.CallExpr) {
 		if d.High != nil {
 			hi = t.expr(d.High)
 		}
+		t.require("(I3.Go.sliceOk " + base + " " + lo + " " + hi + ")")
 		t.assignTo(d.X, "(I3.Go.copyInto "+base+" "+lo+" "+hi+" "+srcV+")")
 	default:
 		base := t.expr(dst)
@@ -657,7 +664,7 @@ func (t *tr) ifStmt(x *ast.IfStmt, rest []ast.Stmt, k cont) string {
 			elseList = []ast.Stmt{e}
 		}
 	}
-	if hasJump(x.Body) || (x.Else != nil && hasJump(x.Else)) {
+	if t.jump(x.Body) || (x.Else != nil && t.jump(x.Else)) {
 		// the rest of the enclosing list is the continuation of both branches
 		a := t.stmts(append(append([]ast.Stmt{}, x.Body.List...), rest...), k)
 		b := t.stmts(append(append([]ast.Stmt{}, elseList...), rest...), k)
@@ -683,9 +690,8 @@ func (t *tr) ifStmt(x *ast.IfStmt, rest []ast.Stmt, k cont) string {
 	return out + t.stmts(rest, k)
 }
 
-// loop with index variable iv over [lo, hi); `bind` are extra lets at the start of the body
-func (t *tr) loop(node ast.Node, fn string, iv string, lo, hi string, bind []string, body *ast.BlockStmt, rest []ast.Stmt, k cont, boundExprs []ast.Expr) string {
-	ws := t.writesOf(body)
+// checkBound: the loop bound must be loop-invariant (element-wise writes keep a length: allowed under len(·))
+func (t *tr) checkBound(node ast.Node, ws writeSet, boundExprs []ast.Expr) {
 	// the bound must be loop-invariant
 	for _, be := range boundExprs {
 		ast.Inspect(be, func(m ast.Node) bool {
@@ -717,6 +723,12 @@ func (t *tr) loop(node ast.Node, fn string, iv string, lo, hi string, bind []str
 			}
 		}
 	}
+}
+
+// loop with index variable iv over [lo, hi); `bind` are extra lets at the start of the body
+func (t *tr) loop(node ast.Node, fn string, iv string, lo, hi string, bind []string, body *ast.BlockStmt, rest []ast.Stmt, k cont, boundExprs []ast.Expr) string {
+	ws := t.writesOf(body)
+	t.checkBound(node, ws, boundExprs)
 	vs := t.sortedVars(ws.vars)
 	tup, tty := t.tuple(vs), t.tupleType(vs)
 	out := t.flush()
@@ -737,22 +749,26 @@ func (t *tr) loopGeneric(node ast.Node, iv string, lo, hi string, bind []string,
 	if fn == "" {
 		fn = "I3.Go.forRange"
 	}
-	if !hasReturn(body) && !hasWhile(body) {
+	if !t.chk && !hasReturn(body) && !hasWhile(body) {
 		return t.loop(node, fn, iv, lo, hi, bind, body, rest, k, boundExprs)
 	}
-	if fn != "I3.Go.forRange" {
+	if fn != "I3.Go.forRange" && !t.chk {
 		t.fail(node, "return inside a downward or unsigned loop")
 	}
 	ws := t.writesOf(body)
-	for _, be := range boundExprs {
-		ast.Inspect(be, func(m ast.Node) bool {
-			if id, ok := m.(*ast.Ident); ok {
-				if v := t.varOf(id); v != nil && ws.vars[v] {
-					t.fail(node, "loop bound reads %s, which the body writes", v.Name())
+	if t.chk {
+		t.checkBound(node, ws, boundExprs)
+	} else {
+		for _, be := range boundExprs {
+			ast.Inspect(be, func(m ast.Node) bool {
+				if id, ok := m.(*ast.Ident); ok {
+					if v := t.varOf(id); v != nil && ws.vars[v] {
+						t.fail(node, "loop bound reads %s, which the body writes", v.Name())
+					}
 				}
-			}
-			return true
-		})
+				return true
+			})
+		}
 	}
 	vs := t.sortedVars(ws.vars)
 	tup, tty := t.tuple(vs), t.tupleType(vs)
@@ -769,11 +785,11 @@ func (t *tr) loopGeneric(node ast.Node, iv string, lo, hi string, bind []string,
 	}
 	b := t.stmts(body.List, kk)
 	r := t.fresh("ret")
-	out += "let (" + r + ", " + tup + ") : (Option " + t.retTy + ") × " + tty + " := I3.Go.forRangeRet (ρ := " + t.retTy + ") (σ := " + tty + ") " + lo + " " + hi + " (fun " + iv + " " + tup + " =>\n" + indent(bindS+b, 2) + ") " + tup + "\n"
+	out += "let (" + r + ", " + tup + ") : (Option " + t.retTy + ") × " + tty + " := " + fn + "Ret (ρ := " + t.retTy + ") (σ := " + tty + ") " + lo + " " + hi + " (fun " + iv + " " + tup + " =>\n" + indent(bindS+b, 2) + ") " + tup + "\n"
 	restS := t.stmts(rest, k)
-	// a return inside the loop returns from the function: only valid when k is the function-level continuation
-	if !k.top {
-		t.fail(node, "return inside a loop nested in another loop or assign-only branch")
+	// a return inside the loop returns from the function
+	if !k.top && k.retTerm == nil {
+		t.fail(node, "return inside a loop from which the function cannot return")
 	}
 	out += "match " + r + " with\n| some rv => " + k.retTerm("rv") + "\n| none => (\n" + indent(restS, 1) + ")"
 	return out
@@ -807,6 +823,9 @@ func (t *tr) whileStmt(x *ast.ForStmt, rest []ast.Stmt, k cont) string {
 		ex, r, tup, t.retTy, tty, t.retTy, tty, whileFuel, tup, cond, tup, indent(b, 2), tup)
 	restS := t.stmts(rest, k)
 	diverged := k.retTerm("(default, false)")
+	if t.chk {
+		diverged = k.retTerm("false") // fuel exhausted: not shown to terminate
+	}
 	out += "if " + ex + " then (\n" + indent(diverged, 1) + ")\nelse match " + r + " with\n| some rv => " + k.retTerm("rv") + "\n| none => (\n" + indent(restS, 1) + ")"
 	return out
 }
@@ -910,6 +929,9 @@ func (t *tr) rangeStmt(x *ast.RangeStmt, rest []ast.Stmt, k cont) string {
 
 // the function's return tuple: declared results then the final contents of mutated parameters
 func (t *tr) retTuple(vals []string) string {
+	if t.chk {
+		return "true"
+	}
 	all := append([]string{}, vals...)
 	for i, m := range t.f.mutated {
 		if m {
